@@ -24,6 +24,9 @@ CHECKS = {
          'Counts after an AtLeastOnce restart are not judged. The concurrent clause runs under the H2 token scheduler (cfg walrus_verif).', '§5 C15'),
 }
 CHECKS.update({
+ 'C10': ('E2', 'fault_enumeration', 'power-loss state enumeration from an I/O trace (H1): for loss points of generated SyncEach workloads every subset / sampled subsets of the unsynced writes, creations and renames is materialised as a directory and recovered by a fresh process',
+         'The traced run records every foreground I/O event with its bytes; for each loss point the directory is rebuilt under the model "explicitly synced data and directory entries are durable, everything else is kept or lost independently", opened and drained; acknowledged appends must be there in order and (StrictlyAtOnce) acknowledged consumption must not be redelivered.',
+         'The durability model is the one stated in the property; clean-marker files are not rebuilt. Payloads <= 64 KiB (the trace carries the bytes).', '§5 C10'),
  'C11': ('E5', 'exploration', 'structure-aware mutation testing of on-disk state (valid directory from a generated workload, mutations aimed at entry headers / payloads / cursor and marker files / file structure, stray files) with a crash-freedom and payload-membership oracle in a fresh process',
          'A generated workload builds a valid directory; 1-4 generated mutations damage it; a fresh process with debug assertions on opens it and reads every topic through every API under a watchdog. No panic, abort, signal or hang; every returned payload must have been appended to that topic.',
          'UB is detected through debug assertions (bounds, alignment, overflow), not through a sanitizer build. Loss or duplication of entries is not judged here.', '§5 C11'),
@@ -122,7 +125,7 @@ m = {
    {'name': 'E5', 'path': 'harness/src/props/damage.rs', 'serves_properties': ['C11'], 'kind_free_text': 'directory mutation engine: E1 workload -> clean exit -> generated damage -> fresh process reads everything'},
    {'name': 'E4', 'path': 'harness/src/props/multi.rs', 'serves_properties': ['C13'], 'kind_free_text': 'multi-instance interpreter: one child process, several Walrus instances, one reference model per instance'},
    {'name': 'E3', 'path': 'harness/src/props/conc.rs, harness/src/conc.rs', 'serves_properties': ['C05','C15'], 'kind_free_text': 'schedule-controlled concurrency: thread programs executed under the H2 token scheduler (cfg walrus_verif), schedules generated by proptest or enumerated with a preemption bound'},
-   {'name': 'E2', 'path': 'harness/src/props/crash.rs', 'serves_properties': ['C04','C07','C08','C09'], 'kind_free_text': 'crash-point enumeration: E1 workloads traced through the H1 I/O seam, re-executed with the process terminated at each selected event, recovered in a fresh process and judged against the acknowledged history'},
+   {'name': 'E2', 'path': 'harness/src/props/crash.rs', 'serves_properties': ['C04','C07','C08','C09','C10'], 'kind_free_text': 'crash-point enumeration: E1 workloads traced through the H1 I/O seam, re-executed with the process terminated at each selected event, recovered in a fresh process and judged against the acknowledged history'},
  ],
  'checks': checks,
  'not_applicable': na,
